@@ -22,7 +22,7 @@ ANCHORS = ["decaylanguage.dec.dec:get_definitions", "decaylanguage.dec.dec:get_a
            "decaylanguage.dec.dec:get_lineshape_settings", "decaylanguage.dec.dec:get_lineshapePW_definitions", "decaylanguage.dec.dec:get_global_photos_flag"]
 WORKERS = {"quick": 4, "thorough": 16}
 WTESTS = {"groups": ['parse'], "tests": ['tests/dec'], "counts": ["C01.parse."]}
-REQUIRED = {"queries-asked-twice-with-returned-values-edited": 50, **{f"kind:{k}": 20 for k in KINDS}, **{f"repeated:{k}": 8 for k in KINDS if k not in ("LSPW", "LS", "BW", "CM", "INC", "Photos")},
+REQUIRED = {"multi-file:part-without-final-newline": 10, "queries-asked-twice-with-returned-values-edited": 50, **{f"kind:{k}": 20 for k in KINDS}, **{f"repeated:{k}": 8 for k in KINDS if k not in ("LSPW", "LS", "BW", "CM", "INC", "Photos")},
             "repeated-lineshape-setting(must-raise)": 10, "lineshape:several-kinds-one-particle": 10, "photos:absent": 10, "photos:one": 10, "photos:several-last-differs": 5,
             "photos:three-or-more": 5, "particle:width-default-real": 10, "particle:width-default-via-alias": 10, "particle:alias-name-reused-across-files": 5, "particle:explicit-width": 10,
             "jetset:int": 10, "jetset:float": 10, "jetset:signed": 5, "pythia:number": 10, "pythia:word": 10, "statements-between-blocks": 20,
@@ -170,8 +170,17 @@ def check(ctx, stmts, text, wit, workload, um=(), files=None, hits=()):
         for part in parts:
             name = "".join(ctx.rng.choice("abcdefghijklmnopqrstuvwxyz0123456789_") for _ in range(ctx.rng.randint(1, 9))) + ".dec"
             pth = os.path.join(d, name)
+            body = L.render(part)
+            style = ctx.rng.choice(["newline", "newline", "no-final-newline", "ends-in-comment-without-newline"])
+            if part is not parts[-1] or ctx.rng.random() < 0.5:
+                if style == "no-final-newline":
+                    body = body.rstrip("\n")
+                elif style == "ends-in-comment-without-newline":
+                    body = body + "# end of this part"
+                if style != "newline":
+                    ctx.hit("multi-file:part-without-final-newline")
             with open(pth, "w", encoding="utf-8") as fh:
-                fh.write(L.render(part))
+                fh.write(body)
             paths.append(pth)
         w2 = {**wit, "files": [os.path.basename(x) for x in paths], "parts": [L.render(x) for x in parts]}
         ok2, res2 = ctx.guard("parse-multi-file", w2, snapshot.make_parser, None, paths, um)
